@@ -194,7 +194,63 @@ func ClassifyCheck(w gen.World, r m.Request, exp refsem.Outcome, allowed bool, e
 	if err == nil && !allowed && exp == refsem.Unknown && SwallowedNextToValidSibling(w, r) {
 		return SigSwallowedConditionError
 	}
+	if err == nil && !allowed && exp == refsem.True && UserAndWildcardOnSameObjectNotBothEffective(w, r) {
+		return SigSortedReadDedup
+	}
 	return ""
+}
+
+// SigSortedReadDedup: CombinedTupleReader.ReadStartingWithUser with sorted
+// results merges through OrderedCombinedIterator keyed by object id, which keeps
+// only the first tuple per object BEFORE the validity and condition filters
+// run. With a user filter {user:x, user:*} two tuples can share the object; if
+// the first one is invalid for the model or its condition is false/unevaluable
+// the object is dropped although the second tuple grants access (weight-2 and
+// recursive fast paths).
+const SigSortedReadDedup = "C01/sorted-read-keeps-first-tuple-per-object-before-filtering"
+
+// UserAndWildcardOnSameObjectNotBothEffective recognises that signature
+// structurally: some (object, relation) holds both a tuple for the request's
+// user and one for the typed wildcard of its type (stored incl. left-overs, or
+// contextual), and not both are effective (valid for the model with a
+// condition that is absent or true).
+func UserAndWildcardOnSameObjectNotBothEffective(w gen.World, r m.Request) bool {
+	if m.UserKind(r.User) != "object" {
+		return false
+	}
+	wild := m.UserType(r.User) + ":*"
+	all := append(append(append([]m.Tuple{}, w.Tuples...), w.Left...), r.Contextual...)
+	type pair struct{ user, wild *m.Tuple }
+	by := map[string]*pair{}
+	for i := range all {
+		t := &all[i]
+		k := t.Object + "#" + t.Relation
+		if by[k] == nil {
+			by[k] = &pair{}
+		}
+		if t.User == r.User {
+			by[k].user = t
+		}
+		if t.User == wild {
+			by[k].wild = t
+		}
+	}
+	effective := func(t *m.Tuple) bool {
+		if refsem.ValidForRead(w.Model, *t) != refsem.OK {
+			return false
+		}
+		if t.Cond == "" {
+			return true
+		}
+		c := w.Model.Cond(t.Cond)
+		return c != nil && refsem.EvalCondition(c, r.Ctx, t.Ctx) == refsem.True
+	}
+	for _, p := range by {
+		if p.user != nil && p.wild != nil && !(effective(p.user) && effective(p.wild)) {
+			return true
+		}
+	}
+	return false
 }
 
 // SortedSet returns the sorted distinct strings.
